@@ -29,8 +29,8 @@ ROOT = os.path.dirname(os.path.dirname(os.path.abspath(__file__)))
 LEAN = os.path.join(ROOT, "lean")
 REPO = os.environ.get("VERIF_REPO", "/repo")
 DRIVER_BIN = os.path.join(LEAN, ".lake", "build", "bin", "crdriver")
-EVIDENCE_DIR = os.path.join(ROOT, "evidence")
-REPLAY_DIR = os.path.join(ROOT, "replays")
+EVIDENCE_DIR = os.environ.get("VERIF_EVIDENCE_DIR") or os.path.join(ROOT, "evidence")   # seed tests redirect it
+REPLAY_DIR = os.environ.get("VERIF_REPLAY_DIR") or os.path.join(ROOT, "replays")
 CORPUS_DIR = os.path.join(ROOT, "corpus")
 FINDINGS_FILE = os.path.join(ROOT, "known-findings.txt")
 GUARD = "COMMONROAD_IO_VERIF"
